@@ -1,4 +1,4 @@
-\* HAZARD, expected result: DEADLOCK. ForceMerge on an in-memory scorch index (no merger loop) waits for doneCh/closeCh for ever
+\* REGRESSION DETECTOR (repaired in 916db13): with the OLD ForceMerge (LegacyFMMem) TLC finds a deadlock - the request waits for a merger loop that does not exist. The schedule is enacted on the real code on every run.
 SPECIFICATION Spec
 CONSTANTS
   Callers = {c1, c2}
@@ -9,8 +9,8 @@ CONSTANTS
   MaxMerges = 0
   PauseMode = "none"
   HazFD = FALSE
-  HazClose2 = FALSE
-  HazFMMem = TRUE
+  LegacyClose2 = FALSE
+  LegacyFMMem = TRUE
 
 INVARIANTS TypeOK RWExclusion LockBalanced NoPanic ContractHolds
   CloseReturnMeansStopped WriterMeansQuiescent BatchNeverSeesClose NoOrphanAck ForceMergeSingle
